@@ -97,6 +97,11 @@ func drawYamlFile(t *rapid.T, label, ruleID, ext string, maxTests int) (C13File,
 		if numbered {
 			tv = ruleID + "-" + fmt.Sprint(i)
 		}
+		if i > 1 && chance(t, 6, label+"-docsep") {
+			// a second YAML document in the same file: the tests of the file are still numbered through
+			add("other", "", i-1, "---")
+			add("other", "", i-1, "tests:")
+		}
 		descDone := false
 		if chance(t, 12, label+"-descfirst") {
 			// the description comes first, as a block scalar; id and title follow as siblings
